@@ -432,6 +432,27 @@ func c07Keystores(r *Rng, thorough bool) []c07Inst {
 			}
 		}
 	}
+	// a keystore is binary and ends in its 20-octet integrity value: one whose LAST OCTET is a byte that text
+	// handling would trim (LF, CR, blank, tab, NUL, VT, FF) or whose first octets after the magic look like
+	// text must still be read whole. Found by varying an entry date until the digest ends as wanted.
+	for _, jceks := range []bool{false, true} {
+		for _, want := range []byte{0x0a, 0x0d, 0x20, 0x09, 0x00, 0x0b, 0x0c, 0x1a} {
+			e := c07KSEntry{alias: "trusted", date: 1600000000000, certs: [][]byte{certs[1]}}
+			seed := NewRng(r.U64())
+			for try := 0; try < 20000; try++ {
+				e.date = 1600000000000 + uint64(try)
+				d := c07Keystore(seed, jceks, []c07KSEntry{e})
+				if d[len(d)-1] == want {
+					tag, wf := fmt.Sprintf("wf-jks-digest-ends-%02x", want), "JavaKeystore"
+					if jceks {
+						tag, wf = fmt.Sprintf("wf-jceks-digest-ends-%02x", want), "JCEKeystore"
+					}
+					out = append(out, c07Inst{tag: tag, wf: wf, data: d})
+					break
+				}
+			}
+		}
+	}
 	return out
 }
 
